@@ -479,3 +479,116 @@ src/index/write.rs \
             .await?;
         Ok(())
     }'
+B b35_dir_empty_map 'directory_is_empty written with Result::map' src/io.rs \
+'    Ok(std::fs::read_dir(path)?.next().is_none())' \
+'    std::fs::read_dir(path).map(|mut entries| entries.next().is_none())'
+B b36_hunks_available_loop 'hunks_available collects with explicit loops' src/index/mod.rs \
+'            hunks.extend(
+                entries
+                    .into_iter()
+                    .filter(|entry| entry.is_file())
+                    .filter_map(|entry| entry.name.parse::<u32>().ok())
+                    .sorted(),
+            )' \
+'            let mut in_dir = Vec::new();
+            for entry in entries {
+                if !entry.is_file() {
+                    continue;
+                }
+                if let Ok(number) = entry.name.parse::<u32>() {
+                    in_dir.push(number);
+                }
+            }
+            in_dir.sort_unstable();
+            hunks.extend(in_dir)'
+B b37_nanos_rem_euclid 'unix_seconds_and_nanos written with div_euclid / rem_euclid' src/unix_time.rs \
+'    let mut seconds = t.as_second();
+    let mut nanos = t.subsec_nanosecond();
+    if nanos < 0 {
+        seconds -= 1;
+        nanos += 1_000_000_000;
+    }
+    (seconds, nanos.unsigned_abs())' \
+'    let total = t.as_nanosecond();
+    let seconds = total.div_euclid(1_000_000_000) as i64;
+    let nanos = total.rem_euclid(1_000_000_000) as u32;
+    (seconds, nanos)'
+B b38_refs_hunks_local 'referenced_blocks binds the hunk list to a local' src/archive.rs \
+'            for hunk_number in index.hunks_available().await? {' \
+'            let hunk_numbers = index.hunks_available().await?;
+            for hunk_number in hunk_numbers {'
+B b39_validate_reports_order 'validate reports out-of-order entries through the monitor (no panic)' src/validate.rs \
+'    while let Some(entry) = stitch.next().await {
+        if entry.kind() == Kind::File {' \
+'    let mut last_apath: Option<Apath> = None;
+    while let Some(entry) = stitch.next().await {
+        if let Some(last) = &last_apath {
+            if last >= entry.apath() {
+                monitor.error(Error::InvalidMetadata {
+                    details: format!("Index entries out of order: {last:?} then {:?}", entry.apath()),
+                });
+            }
+        }
+        last_apath = Some(entry.apath().clone());
+        if entry.kind() == Kind::File {'
+B b40_empty_file_inline 'the zero-length test is written inline in Protocol::write' src/transport/local.rs \
+'                    && is_empty_file(&full_path).await =>' \
+'                    && tokio::fs::metadata(&full_path)
+                        .await
+                        .is_ok_and(|m| m.is_file() && m.len() == 0) =>'
+B b41_is_valid_pattern_scan 'is_valid as a complete pattern scan' src/apath.rs \
+'        for part in a[1..].split('"'"'/'"'"') {
+            if part.is_empty() || part == "." || part == ".." || part.contains('"'"'\0'"'"') {
+                return false;
+            }
+        }
+        true' \
+'        !(a.ends_with('"'"'/'"'"')
+            || a.contains("//")
+            || a.contains("/./")
+            || a.ends_with("/.")
+            || a.contains("/../")
+            || a.ends_with("/..")
+            || a.contains('"'"'\0'"'"'))'
+B b42_nanos_tuple_form 'unix_seconds_and_nanos returns tuples from an if/else on the sign of the fraction' src/unix_time.rs \
+'    let mut seconds = t.as_second();
+    let mut nanos = t.subsec_nanosecond();
+    if nanos < 0 {
+        seconds -= 1;
+        nanos += 1_000_000_000;
+    }
+    (seconds, nanos.unsigned_abs())' \
+'    let seconds = t.as_second();
+    let nanos = t.subsec_nanosecond();
+    if nanos < 0 {
+        (seconds - 1, (nanos + 1_000_000_000).unsigned_abs())
+    } else {
+        (seconds, nanos.unsigned_abs())
+    }'
+B b43_refs_crosscheck_count 'referenced_blocks cross-checks the listing against the recorded count' src/archive.rs \
+'            for hunk_number in index.hunks_available().await? {' \
+'            let hunk_numbers = index.hunks_available().await?;
+            if let Some(count) = band.get_info().await?.index_hunk_count {
+                if hunk_numbers.len() as u64 != count {
+                    return Err(Error::InvalidMetadata {
+                        details: format!("{band_id} has {} hunks but its tail says {count}", hunk_numbers.len()),
+                    });
+                }
+            }
+            for hunk_number in hunk_numbers {'
+B b44_stitch_retain_after_last 'the stitcher filters a hunk to the subtree once, after recording its last path' src/index/stitch.rs \
+'                        if !self.subtree.is_prefix_of(&entry.apath)
+                            || self.exclude.matches(&entry.apath)
+                        {
+                            continue;' \
+'                        if self.exclude.matches(&entry.apath) {
+                            continue;' \
+src/index/stitch.rs \
+'                        let hunk = match hunk {
+                            Ok(hunk) => hunk,' \
+'                        let mut hunk = match hunk {
+                            Ok(hunk) => hunk,' \
+src/index/stitch.rs \
+'                        *buffered_entries = hunk.into_iter().peekable();' \
+'                        hunk.retain(|entry| self.subtree.is_prefix_of(&entry.apath));
+                        *buffered_entries = hunk.into_iter().peekable();'
